@@ -85,6 +85,20 @@ def subpixel_stage(ctx, rnd, quick):
         ctx.traces += (k + 2) // 3
         ctx.note('subpixel_states_replayed', (k + 2) // 3)
     tlc.cleanup(res.workdir)
+    # the same far beyond the sub-sample counts anyone tests with (n = 33, 64): the error bound (boundary length / n) keeps shrinking only
+    # if the mask keeps being the exact fraction of the n x n sample centres
+    res = tlc.run('MC_Geometry', cfg_text=c02.cfg('FamRectHuge', 'OpsMask', -12, 12, ['InvMaskRange'], subn='NHuge'), dump=True, tag='c03huge', timeout=1200)
+    ctx.tlc(res, 'MC_Geometry sub-pixel masks with 33 x 33 and 64 x 64 sub-samples (exact sample counts)')
+    if res.violated:
+        ctx.violation(f'C03|model|{res.violated}', f'Geometry.tla: {res.violated} fails in the model', {'trace': res.trace[-1:]})
+    else:
+        k = 0
+        for st in parse_dump(res.dump_path, only='pc = "ret"'):
+            k += 1
+            c02.replay_mask_state(ctx, 'C03', st, 4 * k, rnd)       # (4k: fresh regions, no earlier mask)
+        ctx.traces += k
+        ctx.note('subpixel_states_replayed_n33_n64', k)
+    tlc.cleanup(res.workdir)
 
 
 def run(ctx):
